@@ -46,7 +46,24 @@ namespace options
     class user_input
     {
     public:
-        user_input(const std::string& arg) : arg_(arg)
+        struct unchecked_t
+        {
+        };
+
+        user_input(const std::string& arg) : user_input(arg, unchecked_t())
+        {
+            if (!is_value() && !is_double_dash())
+            {
+                if (!std::regex_match(arg, std::regex("-{1,2}[^-=]+[^=]*=?[\\s\\S]*")))
+                {
+                    raise<parsing_error>("The user input couldn't be parsed. (", arg, ")");
+                }
+            }
+        }
+
+        // Does not check the syntax of the argument. The parser rejects a malformed argument when
+        // it has to interpret it, but everything after "--" is a positional, whatever it looks like.
+        user_input(const std::string& arg, unchecked_t) : arg_(arg)
         {
             auto sep = arg_.find("=");
             if (sep != std::string::npos)
@@ -57,14 +74,6 @@ namespace options
             else
             {
                 name_ = arg_;
-            }
-
-            if (!is_value() && !is_double_dash())
-            {
-                if (!std::regex_match(arg, std::regex("-{1,2}[^-=]+[^=]*=?[\\s\\S]*")))
-                {
-                    raise<parsing_error>("The user input couldn't be parsed. (", arg, ")");
-                }
             }
         }
 
